@@ -501,4 +501,28 @@ example : (solve (engineCfgOf .p2 (fun v => if v.getD 0 0 < 2 then some ⟨v.map
     .ok [⟨[2, 0, 5, 6], 7⟩, ⟨[1, 0, 2, 6], 7⟩, ⟨[2, 0, 3, 7], 7⟩] [[5, 6], [2, 6], [3, 7]] := by
   decide +kernel
 
+/-! ### non-vacuity -/
+
+/-- a concrete oracle pair: the integrator adds `(1, 0, 2, 0, 0, 1/2)` per step, the vector field is constant -/
+def exCfg (sec : Sec) (n : ℕ) : StepCfg :=
+  { sec := sec, dt := 1 / 4, maxSteps := n,
+    flow := fun x => [x.getD 0 0 + 1, x.getD 1 0, x.getD 2 0 + 2, x.getD 3 0, x.getD 4 0, x.getD 5 0 + 1 / 2],
+    rhs := fun _ => [0, 1, 8, 0, 0, 2], herm := genHerm }
+
+-- non-vacuity of `return_is_first_crossing` / `backend_traced_eq_model`: q3 goes -5, -3, -1, 1 (crossing in the third step, p3 > 0)
+example : poincareStep (exCfg .q3 3) [1, 2, -5, 1] = some ⟨[1, 2, 0, 9 / 4], 5 / 8⟩ := by decide +kernel
+example : condsOk (envB [1, 2, -5, 1] (1 / 4) [1, 1, -3, 0, 2, 3 / 2] [2, 1, -1, 0, 2, 2] [3, 1, 1, 0, 2, 5 / 2]
+    [] [] [0, 1, 8, 0, 0, 2] [0, 1, 8, 0, 0, 2]) (stepPath .q3) = true := by decide +kernel
+-- `no_return_means_no_crossing`: two steps are not enough
+example : poincareStep (exCfg .q3 2) [1, 2, -5, 1] = none := by decide +kernel
+-- `engine_schedule_independent`: 5 seeds, 2 iterations, 1 worker versus 3 workers finishing in the order 2,0,1
+example :
+    let step : Vec → Option Hit := fun v => if v.getD 0 0 < 3 then some ⟨v.map (· + 1), v.getD 0 0⟩ else none
+    let seeds : List Vec := [[0, 0, 5, 0], [1, 0, 6, 0], [2, 0, 7, 0], [3, 0, 8, 0], [0, 0, 9, 0]]
+    let r1 := workerResults step (zeroAt 1) 2 1 seeds
+    let r3 := workerResults step (zeroAt 1) 2 3 seeds
+    r3.length = 3 ∧ solveWith (zeroAt 1) r1 ≠ solveWith (zeroAt 1) (pick r3 [2, 0, 1]) ∧
+      solveWith (zeroAt 1) r1 ~ solveWith (zeroAt 1) (pick r3 [2, 0, 1]) := by
+  decide +kernel
+
 end HitenModel.Props.C14
